@@ -95,6 +95,7 @@ type Proj struct {
 	HasSnap bool       `json:"hassnap"`
 	SnapLen int64      `json:"snaplen"`
 	Other   []string   `json:"other"` // unexpected files in the directories
+	Direct  int        `json:"direct"` // primary records found only at an index entry's position, not by walking the file
 }
 
 func readIdxHeader(path string) IdxHeader {
@@ -278,6 +279,33 @@ func ReadPriFile(path string, n, limit int64, cidKey bool) (PriFile, error) {
 	return f, nil
 }
 
+// directPriRec parses the record at a given local offset of a primary file.
+func directPriRec(path string, n, limit, local int64, cidKey bool) (PriRec, bool) {
+	b, err := os.ReadFile(path)
+	if err != nil || local+4 > int64(len(b)) {
+		return PriRec{}, false
+	}
+	raw := binary.LittleEndian.Uint32(b[local:])
+	del := raw&delBit != 0
+	size := int64(raw &^ delBit)
+	if local+4+size > int64(len(b)) {
+		return PriRec{}, false
+	}
+	r := PriRec{Off: local, Size: size, Del: del, Pos: n*limit + local, VLen: -1, Dig: []int{}}
+	if !del {
+		dig, kl, bad := parseKey(b[local+4:local+4+size], cidKey)
+		r.Bad = bad
+		if bad == "" {
+			r.Dig = ints(dig)
+			val := b[local+4+int64(kl) : local+4+size]
+			r.VLen = int64(len(val))
+			h := sha1.Sum(val)
+			r.VH = hex.EncodeToString(h[:6])
+		}
+	}
+	return r, true
+}
+
 func readFreeList(path string) ([][2]int64, bool, int64) {
 	b, err := os.ReadFile(path)
 	if err != nil {
@@ -367,6 +395,48 @@ func Read(indexDir, indexBase, dataDir, dataBase string, cidPrimary bool) (*Proj
 		for _, o := range pother {
 			if o != dataBase+".info" {
 				p.Other = append(p.Other, o)
+			}
+		}
+	}
+	// Records that index entries name but that a sequential walk of the primary file does not
+	// reach (a torn tail left by a crash sits in front of them) are parsed at their position.
+	{
+		known := map[int64]bool{}
+		for _, f := range p.PF {
+			for _, r := range f.Recs {
+				known[r.Pos] = true
+			}
+		}
+		plimit := p.PH.Limit
+		if plimit == 0 {
+			plimit = 1 << 30
+		}
+		for _, f := range p.IF {
+			for _, rec := range f.Recs {
+				if rec.Del {
+					continue
+				}
+				_ = cidPrimary
+				for _, en := range rec.Ents {
+					if known[en.Off] {
+						continue
+					}
+					known[en.Off] = true
+					fn, local := en.Off/plimit, en.Off%plimit
+					for i := range p.PF {
+						if p.PF[i].N != fn {
+							continue
+						}
+						path := dataDir + "/" + dataBase + "." + strconv.FormatInt(fn, 10)
+						if cidPrimary {
+							path = dataDir + "/" + dataBase
+						}
+						if r, ok := directPriRec(path, fn, plimit, local, cidPrimary); ok {
+							p.PF[i].Recs = append(p.PF[i].Recs, r)
+							p.Direct++
+						}
+					}
+				}
 			}
 		}
 	}
